@@ -25,6 +25,14 @@ DistValidOK == (Rec.op = "dist" /\ Done /\ Has("outputs")) =>
 \* N = 2: the unsigned tables reached include entangling ones (some image has weight 2)
 EntangleOK == (Rec.op = "dist" /\ Done /\ Has("outputs") /\ Rec.name = "random_clifford_n2") =>
     \E j \in 1..Len(Rec.outputs) : \E a \in 1..4 : Weight(Dec(Rec.outputs[j][a])) = 2
+\* N = 3 (|Sp(6,2)| = 1451520 tables): too many to tally, so a birthday test: among M draws the number of
+\* repeated tables must stay within 5 times its expectation M(M-1)/(2*space) (Poisson, mean ~12 for M = 6000);
+\* a sampler confined to a subgroup / subset of the tables produces far more repeats
+BirthdayOK == (Rec.op = "birthday" /\ Done) =>
+    /\ Rec.space = 1451520 /\ Rec.M >= 5000 /\ Rec.M <= 8000
+    /\ Rec.collisions <= 200
+    /\ Rec.collisions * 2 * Rec.space <= 5 * Rec.M * (Rec.M - 1)
+    /\ Has("outputs") => \A j \in 1..Len(Rec.outputs) : ValidMap(DecM(Rec.outputs[j]))
 \* fair binary events (sign bits, measurement coins): |c0 - c1| <= 8 sqrt(n)  <=>  (c0-c1)^2 <= 64 n
 FairOK == (Rec.op = "fair" /\ Done) => (Rec.c0 - Rec.c1) * (Rec.c0 - Rec.c1) <= 64 * (Rec.c0 + Rec.c1) /\ Rec.c0 + Rec.c1 >= 1000
 \* gates without maps are resampled at every call: two calls under one seed differ for some seed of the block
